@@ -148,24 +148,19 @@ func fieldChainOnWeb(t *Term, v ssa.Value, path ...string) bool {
 
 // eqCond: g asserts a == b (== taken true, or != taken false); returns the two operand terms.
 func eqCond(tm *Termer, g Guard) (*Term, *Term, bool) {
-	b, ok := g.Cond.(*ssa.BinOp)
-	if !ok {
-		return nil, nil, false
-	}
-	if (b.Op == token.EQL && g.True) || (b.Op == token.NEQ && !g.True) {
-		return tm.Of(b.X), tm.Of(b.Y), true
+	// any spelling: a == b taken true, a != b taken false, !(a != b), constants on either side
+	x, y, op, ok := CmpFact(g.Cond, g.True)
+	if ok && op == token.EQL {
+		return tm.Of(x), tm.Of(y), true
 	}
 	return nil, nil, false
 }
 
 // neqCond: g asserts a != b.
 func neqCond(tm *Termer, g Guard) (*Term, *Term, bool) {
-	b, ok := g.Cond.(*ssa.BinOp)
-	if !ok {
-		return nil, nil, false
-	}
-	if (b.Op == token.NEQ && g.True) || (b.Op == token.EQL && !g.True) {
-		return tm.Of(b.X), tm.Of(b.Y), true
+	x, y, op, ok := CmpFact(g.Cond, g.True)
+	if ok && op == token.NEQ {
+		return tm.Of(x), tm.Of(y), true
 	}
 	return nil, nil, false
 }
@@ -257,9 +252,24 @@ func loopRangesOver(tm *Termer, l *Loop, what string) bool {
 		return false
 	}
 	iff, ok := l.Header.Instrs[len(l.Header.Instrs)-1].(*ssa.If)
+	if !ok || len(l.Header.Succs) != 2 {
+		return false
+	}
+	// the outcome that stays in the loop, stated as a comparison that holds: idx < len(what) in any spelling
+	stay := l.Blocks[l.Header.Succs[0]]
+	if stay == l.Blocks[l.Header.Succs[1]] {
+		return false
+	}
+	x, y, op, ok := CmpFact(iff.Cond, stay)
 	if !ok {
 		return false
 	}
-	ct := tm.Of(iff.Cond)
-	return ct.Op == "bin" && ct.Name == "<" && ct.Args[1].String() == "len("+what+")"
+	want := "len(" + what + ")"
+	switch op {
+	case token.LSS:
+		return tm.Of(y).String() == want
+	case token.GTR:
+		return tm.Of(x).String() == want
+	}
+	return false
 }
